@@ -171,7 +171,7 @@ META = {
     },
     "C20": {
         "engine": "race-replay",
-        "text": "4-6 driver goroutines deliver service / pool (controller) and service / configuration / node (speaker) events through the real k8s.Listener while fetchers call CountersForPool, Announce.GetStatus (reading the advertisements the way the Layer2StatusReconciler does) and PeersForService (iterating the set) and consumers drain the callbacks; the Go race detector watches; panics and deadlocks are caught; the effective handler order, logged from inside the Listener lock, is replayed serially on fresh instances and allocator state, status writes, layer-2 announcements, sessions and PeersForService must be equal; the per-address sequence of requests for gratuitous announcements must be the one of the serial order. Third run (layer2): the real periodic interface scan runs twice on an announcer that still holds responders of vanished interfaces while handlers and fetchers run; the stale responders must be closed and dropped, nothing may panic or stay parked. Controller rounds also judge what the concurrent readers see: each fetcher snapshot of a pool's counters must conserve assigned + available = usable size in one configuration version of the round, and the counters last fetched by the callback consumer must equal the allocator's once every notification is consumed.",
+        "text": "4-6 driver goroutines deliver service / pool (controller) and service / configuration / node (speaker) events through the real k8s.Listener while fetchers call CountersForPool, Announce.GetStatus (reading the advertisements the way the Layer2StatusReconciler does) and PeersForService (iterating the set) and consumers drain the callbacks; the Go race detector watches; panics and deadlocks are caught; the effective handler order, logged from inside the Listener lock, is replayed serially on fresh instances and allocator state, status writes, layer-2 announcements, sessions and PeersForService must be equal; the per-address sequence of requests for gratuitous announcements must be the one of the serial order. Third run (layer2): the real periodic interface scan runs twice on an announcer that still holds responders of vanished interfaces while handlers and fetchers run; the stale responders must be closed and dropped, nothing may panic or stay parked. Controller rounds also judge what the concurrent readers see: each fetcher snapshot of a pool's counters must conserve assigned + available = usable size in one configuration version of the round, the counters last fetched by the callback consumer must equal the allocator's once every notification is consumed, and a fetch made at the last notification of a pool inside a handler must return the counters that handler leaves behind.",
         "design_ref": "DESIGN.md 2/C20",
         "note": "Race-detector silence covers the executed interleavings only. Deadlock = no progress within 60 s with drivers parked inside MetalLB behind a Listener handler (violation, with the goroutine dump); no progress without that picture is inconclusive.",
         "technique": "sanitizer (Go race detector) + serial replay in recorded lock order + conservation monitor over concurrent counter snapshots",
